@@ -156,7 +156,9 @@ class _:
 @op('List.sort', 'List', batch=True)
 class _:
   def gen(g, l): return {'key': g.rng.choice([None, 'repr']), 'reverse': g.rng.random() < 0.3}
-  def run(l, a, B): return l.sort(key=repr if a['key'] else None, reverse=a['reverse'])
+  def run(l, a, B):
+    from pgverif.monitors import refmodel  # pylint: disable=g-import-not-at-top
+    return l.sort(key=refmodel.sortkey if a['key'] else None, reverse=a['reverse'])
 
 
 @op('List.reverse', 'List', batch=True)
@@ -181,7 +183,7 @@ class _:
   def run(l, a, B): return l.__imul__(a['n'])
 
 
-@op('List.*=', 'List', effect='new')
+@op('List.*=', 'List', batch=True, inplace_slot=True)
 class _:
   def gen(g, l): return {'n': g.rng.choice([0, 1, 2, 3, -1]) if len(l) < 12 else g.rng.choice([0, 1, -1])}
   def run(l, a, B): return operator.imul(l, a['n'])
